@@ -1,2 +1,291 @@
+//! Input parsing / re-emission: append-only (C02), module classification (C08), diagnostics (C15).
+use super::c_assemble::trait_methods;
 use super::*;
-pub fn contracts() -> Vec<Contract> { vec![] }
+
+pub fn contracts() -> Vec<Contract> {
+    vec![
+        Contract { name: "c02_append_only", function: "input.rs::{Input::parse, ModItem::parse, ImplItem::parse, parse_matched_braces_or_ending_semi, verbatim_between, ToTokens impls}, entrait_fn/mod.rs::{entrait_for_single_fn, entrait_for_mod}, entrait_impl/mod.rs::output_tokens_for_impl", props: &["C02"], run: c02 },
+        Contract { name: "c08_module_methods", function: "input.rs::{ModItem::parse, peek_pub_fn, peek_fn}, entrait_fn/mod.rs::entrait_for_mod", props: &["C08", "C01"], run: c08 },
+        Contract { name: "c15_diagnostics_no_panic", function: "lib.rs::invoke and everything below it", props: &["C15"], run: c15 },
+    ]
+}
+
+/// items a module or impl body may contain (token text), with a flag: is it a visible fn with a body?
+fn item_alphabet() -> Vec<(&'static str, Option<&'static str>)> {
+    vec![
+        ("pub fn a(deps: &impl Any) { let x = vec![1, 2]; x.len(); }", Some("a")),
+        ("pub(crate) async fn b(deps: &impl Any, n: u8) -> u8 { n }", Some("b")),
+        ("pub const fn c(deps: &impl Any) {}", Some("c")),
+        ("pub unsafe extern \"C\" fn d(deps: &impl Any) {}", Some("d")),
+        ("pub(super) const async unsafe fn e(deps: &impl Any) {}", Some("e")),
+        ("fn private(deps: &impl Any) { fn nested() {} }", None),
+        ("pub struct S { pub f: fn(i32) -> i32 }", None),
+        ("pub const K: fn() = || {};", None),
+        ("use std::collections::HashMap;", None),
+        ("impl S { pub fn in_impl(&self) {} }", None),
+        ("macro_rules! mk { () => { pub fn made() {} }; }", None),
+        ("pub mod inner { pub fn in_inner() {} }", None),
+        ("extern \"C\" { pub fn in_extern(); }", None),
+        ("#[doc = \"x\"] #[inline] pub fn f(deps: &impl Any) -> i32 { match 1 { _ => { 2 } } }", Some("f")),
+        ("pub static ST: u8 = 1;", None),
+        ("pub fn g(deps: &impl Any) -> u8 where u8: Sized { 0 }", Some("g")),
+        ("pub const KK: S2 = S2 { a: 1 };", None),
+        ("pub type Alias = fn();", None),
+        ("pub trait T2 { fn in_trait(&self); }", None),
+    ]
+}
+
+fn fn_names(items: &[syn::Item]) -> Vec<String> {
+    items.iter().filter_map(|i| if let syn::Item::Fn(f) = i { Some(f.sig.ident.to_string()) } else { None }).collect()
+}
+
+fn c02(ctx: &Ctx, r: &mut Report) {
+    let max = if ctx.tier == Tier::Thorough { 3 } else { 2 };
+    r.domain = "fn inputs (attributes, qualifiers, bodies with nested groups / macros / unparsable-by-syn tokens); module and impl-block bodies over an alphabet of 19 items (visible fns with every qualifier combination, private fn, struct, const with closure, use, impl, macro_rules, nested mod, extern block, static, type alias, trait, item ending in `};`)".into();
+    r.bound = format!("module bodies of length 0..{} (all sequences), plus every single item; 12 fn inputs", max);
+    // --- fn inputs: output starts with the input tokens, unchanged
+    let fns = [
+        "fn f(deps: &impl Any) {}",
+        "#[doc = \"d\"] #[inline(always)] pub(crate) async unsafe fn f<'a, D: Foo>(deps: &'a D, x: &'a str) -> &'a str where D: Bar { x }",
+        "pub fn f(deps: &impl Any) -> i32 { let v = [1, 2, 3]; if v.len() > 2 { return 1; }; 0 }",
+        "fn f(deps: &impl Any) { some_macro! { weird tokens => @ # $ ~ ; ; } }",
+        "fn f(deps: &impl Any) { let s = \"}{;\"; let c = '}'; /* } */ }",
+        "const fn f(deps: &App) {}",
+        "pub extern \"C\" fn f(deps: &impl Any, a: i32) {}",
+        "fn f(deps: &impl Any) { async move { 1 }.await; || -> i32 { 2 }; }",
+        "#[cfg(all())] fn f(deps: &impl Any) { #![allow(unused)] }",
+        "fn f(deps: &impl Any, (a, b): (i32, i32), _: u8) -> (i32, i32) { (a, b) }",
+        "fn f(deps: &impl Any) { r#\"raw \"# ; 1u8 ; 1.5e3 ; b'x' ; 'lt: loop { break 'lt; } }",
+        "fn f(deps: &impl Any) -> impl Fn(i32) -> i32 + '_ { move |x| x }",
+    ];
+    for f in fns {
+        for attr in ["Tr", "Tr, mockall", "pub Tr, unimock, mock_api = TrMock"] {
+            let input = format!("#[entrait({})] {}", attr, f);
+            r.guarded(&input, |r| {
+                let out = expand(Variant::Entrait, attr, f);
+                if let Some(e) = compile_error_of(&out) {
+                    r.fail("unexpected-error", &input, e);
+                    return;
+                }
+                if let Some(k) = ts_prefix(&ts(f), &out) {
+                    r.fail("fn-not-a-prefix", &input, format!("the expansion does not start with the function's own tokens (first difference at token {})", k));
+                }
+            });
+        }
+    }
+    // --- module / impl bodies
+    let alpha = item_alphabet();
+    let mut bodies: Vec<Vec<usize>> = vec![];
+    for n in 0..=max {
+        bodies.extend(sequences(alpha.len(), n));
+    }
+    for body in bodies {
+        // duplicate fn names would not be valid Rust
+        let mut seen = std::collections::BTreeSet::new();
+        if !body.iter().all(|i| seen.insert(*i)) {
+            continue;
+        }
+        let text: Vec<&str> = body.iter().map(|i| alpha[*i].0).collect();
+        let item = format!("#[doc = \"m\"] pub(crate) mod m {{ {} }}", text.join(" "));
+        let input = format!("#[entrait(Tr)] {}", item);
+        r.guarded(&input, |r| {
+            let out = expand(Variant::Entrait, "Tr", &item);
+            if let Some(e) = compile_error_of(&out) {
+                r.fail("unexpected-error", &input, e);
+                return;
+            }
+            // shape: attrs vis mod m { <items> <generated> }  vis use ..;
+            let toks: Vec<TokenTree> = out.into_iter().collect();
+            let header = ts("#[doc = \"m\"] pub(crate) mod m");
+            let hl = header.clone().into_iter().count();
+            let got_header: TokenStream = toks.iter().take(hl).cloned().collect();
+            if !ts_eq(&header, &got_header) {
+                r.fail("mod-header", &input, format!("module header became `{}`", got_header));
+                return;
+            }
+            let inner = match toks.get(hl) {
+                Some(TokenTree::Group(g)) if g.delimiter() == Delimiter::Brace => g.stream(),
+                _ => {
+                    r.fail("mod-shape", &input, "no brace group after the module header".into());
+                    return;
+                }
+            };
+            if let Some(k) = ts_prefix(&ts(&text.join(" ")), &inner) {
+                r.fail("mod-items-changed", &input, format!("the module body does not start with the original items, unchanged and in order (first difference at token {})", k));
+            }
+        });
+    }
+    // --- impl blocks: items re-emitted inside an inherent impl
+    for body in sequences(alpha.len(), 1).into_iter().chain(std::iter::once(vec![0, 5, 13])) {
+        let text: Vec<&str> = body
+            .iter()
+            .map(|i| alpha[*i].0)
+            .filter(|t| !(t.contains("mod inner") || t.contains("struct S") || t.contains("use std") || t.contains("impl S") || t.contains("extern \"C\" {") || t.contains("static") || t.contains("trait T2") || t.contains("macro_rules")))
+            .collect();
+        let item = format!("impl TrImpl for X {{ {} }}", text.join(" ").replace("&impl Any", "&D").replace("fn a(", "fn a<D>(").replace("fn b(", "fn b<D>(").replace("fn c(", "fn c<D>(").replace("fn d(", "fn d<D>(").replace("fn e(", "fn e<D>(").replace("fn f(", "fn f<D>(").replace("fn g(", "fn g<D>(").replace("fn private(", "fn private<D>("));
+        let input = format!("#[entrait] {}", item);
+        r.guarded(&input, |r| {
+            let out = expand(Variant::Entrait, "", &item);
+            if let Some(e) = compile_error_of(&out) {
+                r.fail("unexpected-error", &input, e);
+                return;
+            }
+            let toks: Vec<TokenTree> = out.into_iter().collect();
+            // impl X { <items> }
+            let head: Vec<String> = toks.iter().take(2).map(|t| t.to_string()).collect();
+            if head != vec!["impl".to_string(), "X".to_string()] {
+                r.fail("impl-header", &input, format!("expansion starts with `{}`", head.join(" ")));
+                return;
+            }
+            let inner = match toks.get(2) {
+                Some(TokenTree::Group(g)) if g.delimiter() == Delimiter::Brace => g.stream(),
+                _ => {
+                    r.fail("impl-shape", &input, "no brace group after `impl X`".into());
+                    return;
+                }
+            };
+            let orig_inner = match ts(&item).into_iter().last() {
+                Some(TokenTree::Group(g)) => g.stream(),
+                _ => TokenStream::new(),
+            };
+            if !ts_eq(&inner, &orig_inner) {
+                r.fail("impl-items-changed", &input, "the inherent impl does not contain exactly the original items".into());
+            }
+        });
+    }
+}
+
+fn c08(ctx: &Ctx, r: &mut Report) {
+    let max = if ctx.tier == Tier::Thorough { 4 } else { 3 };
+    r.domain = "module bodies over the 19-item alphabet of c02 (visible fns with every qualifier combination, private fns, body-less and nested fns, items containing `fn` tokens)".into();
+    r.bound = format!("all sequences without repetition of length 0..{}", max);
+    let alpha = item_alphabet();
+    let mut bodies: Vec<Vec<usize>> = vec![];
+    for n in 0..=max {
+        bodies.extend(sequences(alpha.len(), n));
+    }
+    for body in bodies {
+        let mut seen = std::collections::BTreeSet::new();
+        if !body.iter().all(|i| seen.insert(*i)) {
+            continue;
+        }
+        if max >= 3 && body.len() == max && body.iter().all(|i| alpha[*i].1.is_none()) && body[0] % 3 != 0 {
+            continue; // thin out bodies without any visible fn
+        }
+        let text: Vec<&str> = body.iter().map(|i| alpha[*i].0).collect();
+        let want: Vec<&str> = body.iter().filter_map(|i| alpha[*i].1).collect();
+        let item = format!("mod m {{ {} }}", text.join(" "));
+        let input = format!("#[entrait(pub Tr)] {}", item);
+        r.guarded(&input, |r| {
+            let out = expand(Variant::Entrait, "pub Tr", &item);
+            if let Some(e) = compile_error_of(&out) {
+                r.fail("unexpected-error", &input, e);
+                return;
+            }
+            let file = match parse_file(&out) {
+                Ok(f) => f,
+                Err(e) => {
+                    r.fail("unparsable", &input, e);
+                    return;
+                }
+            };
+            let t = mod_items(&file.items, "m").and_then(|it| find_trait(it, "Tr"));
+            match t {
+                Some(t) => {
+                    let got: Vec<String> = trait_methods(t).iter().map(|m| m.sig.ident.to_string()).collect();
+                    if got != want {
+                        r.fail("method-list", &input, format!("trait methods {:?}, the module's visible functions are {:?}", got, want));
+                    }
+                }
+                None => r.fail("no-trait", &input, "trait not generated inside the module".into()),
+            }
+        });
+    }
+}
+
+fn c15(_ctx: &Ctx, r: &mut Report) {
+    r.domain = "documented misuses with their messages; unsupported items (struct, enum, const, use, extern block, macro, empty); malformed option lists; parameter patterns in fn and trait-method signatures {ident, mut, ref, _, tuple, struct, slice, reference, nested, or-less}; every Ok output must re-parse as items".into();
+    r.bound = "fixed catalogue (listed in the contract source), exhaustive".into();
+    let misuse: [(&str, &str, &str); 9] = [
+        ("Tr", "fn f() {}", "Function must have a dependency 'receiver' as its first parameter"),
+        ("Tr", "fn f(&self) {}", "Function cannot have a self receiver"),
+        ("Tr", "fn f(self, a: i32) {}", "Function cannot have a self receiver"),
+        ("Tr", "mod m { pub fn f(deps: &App) {} }", "Using concrete dependencies in a module is an anti-pattern"),
+        ("", "impl TrImpl for X { fn f(deps: &App) {} }", "Cannot (yet) use concrete dependency in an impl block"),
+        ("Tr, bogus", "fn f(deps: &impl Any) {}", "Unkonwn entrait option \\\"bogus\\\""),
+        ("Tr, delegate_by = ref", "fn f(deps: &impl Any) {}", "Unsupported option"),
+        ("delegate_by = DelegateTr", "trait Tr { fn f(&self); }", "Cannot use a custom delegating trait without a custom trait to delegate to"),
+        ("TrImpl", "trait Tr { fn f(&self); }", "Missing delegate_by"),
+    ];
+    for (attr, item, needle) in misuse {
+        let input = format!("#[entrait({})] {}", attr, item);
+        r.guarded(&input, |r| {
+            let out = expand(Variant::Entrait, attr, item);
+            match compile_error_of(&out) {
+                Some(e) if e.contains(needle) => {}
+                Some(e) => r.fail("wrong-diagnostic", &input, format!("expected `{}`, got {}", needle, e)),
+                None => r.fail("no-diagnostic", &input, format!("expected the diagnostic `{}` but the expansion succeeded", needle)),
+            }
+        });
+    }
+    // anything goes, as long as it is a diagnostic or parsable output - never a panic
+    let odd_items = [
+        "struct S;", "enum E { A }", "const K: u8 = 1;", "use a::b;", "extern \"C\" { fn f(); }", "macro_rules! m { () => {} }", "", "static S: u8 = 1;", "type T = u8;", "union U { a: u8 }",
+        "fn f();", "mod m;", "mod m { pub fn f(deps: &impl Any) }", "trait Tr { const K: u8; }", "trait Tr { fn f(&self) }", "impl X { fn f(&self) {} }", "impl<T> TrImpl for X<T> { }",
+        "auto trait Tr {}", "unsafe mod m {}", "auto mod m {}", "auto impl TrImpl for X {}", "unsafe impl TrImpl for X { fn f<D>(deps: &D) {} }", "pub(crate) unsafe trait Tr { fn f(&self); }",
+    ];
+    for item in odd_items {
+        for attr in ["Tr", "", "Tr, no_deps", "pub", "pub Tr mockall", "Tr,", "Tr,,", "= 3", "Tr, mock_api", "Tr, mock_api =", "Tr, unimock = maybe", "?", "?Send", "ref", "dyn", "ref dyn", "TrImpl, delegate_by", "TrImpl, delegate_by ="] {
+            let input = format!("#[entrait({})] {}", attr, item);
+            r.guarded(&input, |r| {
+                let out = expand(Variant::Entrait, attr, item);
+                if compile_error_of(&out).is_none() {
+                    if let Err(e) = parse_file(&out) {
+                        r.fail("unparsable-output", &input, e);
+                    }
+                }
+            });
+        }
+    }
+    // parameter patterns
+    let pats = ["a", "mut a", "ref a", "_", "(a, b)", "S { a, b }", "S { a, .. }", "[a, b]", "&a", "&mut a", "((a, b), c)", "W(a)", "W(_)", "a @ _", "r#fn", "box_", "(a)", "()", "[]", "S {}"];
+    for p1 in pats {
+        for p2 in ["", "x", "_", "(c, d)"] {
+            let params = if p2.is_empty() { format!("{}: T0", p1) } else { format!("{}: T0, {}: T1", p1, p2) };
+            let cases = [
+                ("Tr".to_string(), format!("fn f(deps: &impl Any, {}) {{}}", params)),
+                ("Tr, no_deps".to_string(), format!("fn f({}) {{}}", params)),
+                ("Tr".to_string(), format!("mod m {{ pub fn f(deps: &impl Any, {}) {{}} }}", params)),
+                ("".to_string(), format!("impl TrImpl for X {{ fn f<D>(deps: &D, {}) {{}} }}", params)),
+                ("ref".to_string(), format!("impl TrImpl for X {{ fn f<D>(deps: &D, {}) {{}} }}", params)),
+            ];
+            for (attr, item) in cases {
+                let input = format!("#[entrait({})] {}", attr, item);
+                r.guarded(&input, |r| {
+                    let out = expand(Variant::Entrait, &attr, &item);
+                    if compile_error_of(&out).is_none() {
+                        if let Err(e) = parse_file(&out) {
+                            r.fail("unparsable-output", &input, e);
+                        }
+                    }
+                });
+            }
+            // patterns in trait method declarations (only identifiers and `_` are legal Rust there)
+            if matches!(p1, "a" | "_" | "r#fn" | "box_") && matches!(p2, "" | "x" | "_") {
+                for attr in ["", "delegate_by = ref", "TrImpl, delegate_by = DelegateTr", "TrImpl, delegate_by = ref", "mockall"] {
+                    let item = format!("trait Tr {{ fn f(&self, {}); }}", params);
+                    let input = format!("#[entrait({})] {}", attr, item);
+                    let class = if p1 == "_" || p2 == "_" { "panic-wildcard-in-trait-method" } else { "panic" };
+                    r.guarded_with(&input, class, |r| {
+                        let out = expand(Variant::Entrait, attr, &item);
+                        if compile_error_of(&out).is_none() {
+                            if let Err(e) = parse_file(&out) {
+                                r.fail("unparsable-output", &input, e);
+                            }
+                        }
+                    });
+                }
+            }
+        }
+    }
+}
